@@ -14,6 +14,7 @@ Decided (engine E/D2 on metadata::update_file and its helpers):
                 grow_padding then falls back to a rebuild instead of writing an unrepresentable size)
   C10.open      the path front-end opens the original read+write without truncation and the rebuilt file truncated
   (C10.size also requires BlockList::blocks() and into_iter() to yield every block: the measured and the written sequence agree)
+  C10.size      (also) the size read is a byte count (a Counter), not an absolute stream position without the start subtracted
 Not decided: byte-for-byte equality of the audio region after the update.
 """
 from rules.common import *
